@@ -13,6 +13,20 @@ COMMON_NOTE = ("Trusted: Lean 4.33.0 kernel; axioms per theorem as printed by #p
 
 # property id -> dict(level, text, technique, note, design_ref)
 CLAIMED = {
+    "C17": dict(
+        level="proof",
+        text="Lean model of Evaluate / InnerModuleEvaluation for modules without top-level await, as in ECMA-262 16.2.1.5.3: DFS and ancestor "
+             "indices, the stack, cycle roots popping their strongly connected component, an error marking every module still on the stack. "
+             "Theorems, for EVERY graph (cycles, self-imports, repeated requests, any number of throwing bodies) and every sequence of Evaluate "
+             "calls: visit_grows / visit_once (invariants of the walk), bodies_run_once (no module body runs twice, ever), "
+             "reevaluate_runs_nothing (evaluating a module that already has a status runs no body, changes no status and returns the recorded "
+             "error if there is one), walked_has_status (so that applies to every module an earlier Evaluate reached). The model is the "
+             "executable spec: on generated graphs served by a counting in-memory loader the engine's sequence of bodies and the outcome of "
+             "every Evaluate must equal the model's; host loads and parses are counted (at most one per module); imported bindings are "
+             "checked to be live.",
+        technique="Lean 4 invariant proofs over a model of InnerModuleEvaluation (once-only, idempotent re-evaluation) + model-predicted vs real evaluation order and outcomes on generated module graphs",
+        note="dependency-order for acyclic graphs is checked through the model's trace, not yet a theorem; top-level await, dynamic import, synthetic/JSON modules are outside the model.",
+    ),
     "C10": dict(
         level="proof",
         text="Lean theorems over the C09 model of boa_gc's collector, as corollaries of its safety/completeness: gc_unobservable (from any handle "
